@@ -236,7 +236,7 @@ theorem hammingDist_spec (d1 : T) (h1 : Inv d1) (s1 : Slice) (v1 : Valid d1 s1) 
       simp only [List.foldl_cons, List.foldl_nil, hamBlockStep, e1, e2]
       rw [show (m + 1) * 32 = m * 32 + 32 by omega, hamming_take_block _ _ _ _ hxy]
       have : countDiff2Bit k1 k2 = KSpec.hamming (Kmer.toSeq kmer32 k1) (Kmer.toSeq kmer32 k2) := DnaStr.countDiff_spec k1 k2
-      rw [this, t1, t2]; rfl
+      rw [this, t1, t2]
   rw [hblocks _ (Nat.le_refl _)]
   -- the tail, base by base
   have htail : ∀ n, s1.length / 32 * 32 + n ≤ s1.length →
